@@ -183,9 +183,9 @@ theorem split_at (w : List Bool) (p : Nat) (hp : p < w.length) :
 
 theorem step_zero_true : Spec.lfsrStep 0#16 true = Lpow 1 1#16 := by decide
 
-/-- exactly two set bits at distance `d`, `1 ≤ d ≤ 2047`: the zero register does not return to zero -/
-theorem feed_two_ne_zero (w : List Bool) (p q : Nat) (hpq : p < q) (hq : q < w.length)
-    (hd : q - p ≤ 2047)
+/-- exactly two set bits at distance `d` with `L^d 1 ≠ 1`: the zero register does not return to zero -/
+theorem feed_two_ne_zero_of (w : List Bool) (p q : Nat) (hpq : p < q) (hq : q < w.length)
+    (hord : Lpow (q - p) 1#16 ≠ 1#16)
     (h : ∀ k (hk : k < w.length), w[k] = true ↔ (k = p ∨ k = q)) : Spec.feed 0#16 w ≠ 0#16 := by
   have hp : p < w.length := by omega
   have hwp : w[p] = true := (h p hp).mpr (Or.inl rfl)
@@ -225,7 +225,15 @@ theorem feed_two_ne_zero (w : List Bool) (p q : Nat) (hpq : p < q) (hq : q < w.l
   have h2 : Lpow (1 + (q - p - 1)) 1#16 = 1#16 := by
     have := BitVec.xor_eq_zero_iff.mp h1
     simpa [bit] using this
-  exact Lpow_one_ne_one _ (by omega) (by omega) h2
+  have e : 1 + (q - p - 1) = q - p := by omega
+  rw [e] at h2
+  exact hord h2
+
+/-- exactly two set bits at distance `d`, `1 ≤ d ≤ 2047`: the zero register does not return to zero -/
+theorem feed_two_ne_zero (w : List Bool) (p q : Nat) (hpq : p < q) (hq : q < w.length)
+    (hd : q - p ≤ 2047)
+    (h : ∀ k (hk : k < w.length), w[k] = true ↔ (k = p ∨ k = q)) : Spec.feed 0#16 w ≠ 0#16 :=
+  feed_two_ne_zero_of w p q hpq hq (Lpow_one_ne_one _ (by omega) hd) h
 
 end Crc
 
